@@ -85,11 +85,15 @@ func rulesC13(c *Ctx) {
 					continue
 				}
 				nReset++
-				c.Check(isC && v == 0 && hasAtom(guards, func(a Atom) bool { return AtomSaysNil(a, true, func(e ast.Expr) bool { return loop.ObjOf(e) == errVar }) }), "counter:reset-on-success", loop, w, "the counter is reset to 0 exactly on a successful ping (guards: %s)", atomsString(guards))
+				c.Check(isC && v == 0 && hasAtom(guards, func(a Atom) bool {
+					return AtomSaysNil(a, true, func(e ast.Expr) bool { return loop.ObjOf(e) == errVar })
+				}), "counter:reset-on-success", loop, w, "the counter is reset to 0 exactly on a successful ping (guards: %s)", atomsString(guards))
 			case *ast.IncDecStmt:
 				nInc++
 				incV = wv
-				okG := st.Tok == token.INC && hasAtom(guards, func(a Atom) bool { return AtomSaysNil(a, false, func(e ast.Expr) bool { return loop.ObjOf(e) == errVar }) }) &&
+				okG := st.Tok == token.INC && hasAtom(guards, func(a Atom) bool {
+					return AtomSaysNil(a, false, func(e ast.Expr) bool { return loop.ObjOf(e) == errVar })
+				}) &&
 					hasAtom(guards, func(a Atom) bool {
 						ce, ok := a.E.(*ast.CallExpr)
 						return ok && !a.Val && loop.IsCallTo(ce, errIs) && loop.ObjOf(ce.Args[1]) == eMNF
